@@ -245,4 +245,13 @@ def rule_activation_not_requeued(ctx: Ctx):
     c03.rule_producers(ctx, "C11.who")
 
 
-RULES = [rule_identity, rule_guard, rule_who, rule_constructor, rule_reactivation, rule_sentinel, rule_target, rule_model, rule_restore_gate, rule_activation_not_requeued]
+def rule_right_engine_activates(ctx: Ctx):
+    """C11.who: a machine with coroutine callbacks is activated by the async engine (before the first event, awaiting its
+    enter callbacks): the flag that selects the engine says "coroutine" for every callable whose call hands back a coroutine -
+    it is asked of the callable itself, not of what it wraps."""
+    from . import c05
+
+    c05.rule_flag_chain(ctx, rule="C11.who")
+
+
+RULES = [rule_identity, rule_guard, rule_who, rule_constructor, rule_reactivation, rule_sentinel, rule_target, rule_model, rule_restore_gate, rule_activation_not_requeued, rule_right_engine_activates]
